@@ -153,6 +153,11 @@ def main():
     prop, tier = a.prop, a.tier if a.tier in ('quick', 'thorough') else 'quick'
     t0 = time.time()
     corr, oracle_mods, corr_more, classifiers = load_modules()
+    try:
+        import impl as _impl
+        _impl.exercise_library()
+    except BaseException:      # noqa
+        pass
     if a.replay:
         return replay(a.replay, classifiers)
 
